@@ -24,10 +24,13 @@ bool H_TSO = true;
 
 // ------------------------------------------------------------------ generator
 struct GenSt { Src& s; int next_unit; int next_group; int narenas; std::vector<std::string> lines; int budget; };
-static void gen_unit(GenSt& g, int uid, int depth, int own_group /* group this unit runs in, -1 none */, bool inline_unit) {
+// chain = arenas the executing thread already occupies at outer nesting levels: execute() back into one of them can wait for a
+// slot the caller itself holds (user-level deadlock, outside the property), so it is never generated
+static void gen_unit(GenSt& g, int uid, int depth, int own_group /* group this unit runs in, -1 none */, bool inline_unit, std::vector<int> chain = {}) {
     std::string o = "u " + std::to_string(uid);
     std::vector<int> mine;           // groups created by this unit
-    std::vector<std::pair<int, int>> todo;   // (unit, depth) bodies to generate after this line
+    std::vector<std::pair<int, int>> todo;   // (unit, kind) bodies to generate after this line
+    std::map<int, int> todo_arena;
     int nops = g.s.range(1, depth == 0 ? 6 : 3);
     for (int k = 0; k < nops; k++) {
         bool can_sub = g.budget > 0 && depth < 3;
@@ -58,10 +61,10 @@ static void gen_unit(GenSt& g, int uid, int depth, int own_group /* group this u
     (void)inline_unit;
     g.lines.push_back(o);
     for (auto& t : todo) {
-        if (t.second >= 0) gen_unit(g, t.first, depth + 1, t.second, false);
-        else if (t.second == -2) gen_unit(g, t.first, depth + 1, -1, false);
-        else if (t.second == -4) gen_unit(g, t.first, depth + 1, own_group, true);      // isolate: same arena, outer group usable
-        else gen_unit(g, t.first, depth + 1, -1, true);   // execute: work run into an outer group from another arena may legitimately never be taken (no worker there), so outer groups are out of the domain
+        if (t.second >= 0) gen_unit(g, t.first, depth + 1, t.second, false, chain);
+        else if (t.second == -2) gen_unit(g, t.first, depth + 1, -1, false, { todo_arena[t.first] });   // enqueued: runs on a thread whose outermost arena is that one
+        else if (t.second == -4) gen_unit(g, t.first, depth + 1, own_group, true, chain);      // isolate: same arena, outer group usable
+        else { std::vector<int> c2 = chain; c2.push_back(todo_arena[t.first]); gen_unit(g, t.first, depth + 1, -1, true, c2); }   // execute: work run into an outer group from another arena may legitimately never be taken (no worker there), so outer groups are out of the domain
     }
 }
 std::string h_gen(Src& s) {
